@@ -78,6 +78,7 @@ Definition prop_ok (c : case) : bool :=
       match x with
       | C16.CReorder _ out => wf (strip_fb out)
       | C16.CSeq _ _ _ _ out => wf (strip_fb out)
+      | C16.CJob _ _ _ _ _ => true      (* whole job: only the sink content is observed *)
       end && C16.prop_ok x
   end.
 
